@@ -81,7 +81,7 @@ func runRoute(c routeCase) routeCase {
 		}
 		h.SequenceNumber, h.Timestamp, h.SSRC = 0xDEAD, 0xDEADBEEF, 0xEEEEEEEE
 	}
-	col.wait(total, 2500*time.Millisecond, 15*time.Second)
+	col.wait(func() int { return total }, 2500*time.Millisecond, 15*time.Second)
 	done := make(chan struct{})
 	go func() { _ = ic.Close(); close(done) }()
 	select {
